@@ -144,6 +144,20 @@ class Ser:
     def abs(self):
         return Ser([abs(a) for a in self.values], self.index)
 
+    def fillna(self, value, **kw):
+        if kw:
+            raise Unsupported("fillna options")
+        return Ser([value if (_is_nan(a) or a is None) else a for a in self.values], self.index)
+
+    def notna(self):
+        return Ser([not (_is_nan(a) or a is None) for a in self.values], self.index)
+
+    def isnull(self):
+        return self.isna()
+
+    def notnull(self):
+        return self.notna()
+
     def sum(self):
         return sum(a for a in self.values if not _is_nan(a))
 
